@@ -11,6 +11,7 @@ the Playlist table alone), `plInv_step` / `plInv_run` and `forestOk_of_plInv`.
 import Proofs.NoUbCratesV2
 import Proofs.V2ForestRun
 import Proofs.V2WfRaw
+import Proofs.V2Members
 
 namespace EngineModel.Api.GuardedV2
 open EngineModel EngineModel.Db.Chain EngineModel.Db.V2 EngineModel.ListAux EngineModel.Spec
@@ -79,5 +80,36 @@ theorem outcomesG_eq {d : Db} (hI : PlInv d) (ops : List Op) : outcomesG d ops =
   | cons op ops ih =>
     simp only [outcomesG, outcomes, stepG_eq d (forestOk_of_plInv hI) op]
     rw [ih (plInv_step hI op)]
+
+/-! ### every public call (mutations and queries interleaved) along API histories -/
+
+/-- a call whose mutation, if it is one, is a public-API operation or the table-level addition of an entry
+of ANOTHER database (`memOp` of the crates-2.x package: what other software sharing the library does) -/
+def memCall : Call → Bool
+  | .mutate op => memOp op
+  | .q _ => true
+
+theorem callOutcomes_defined (cs : List Call) : ∀ {S : Ord} {d : Db}, Inv S d → cs.all memCall = true →
+    ∀ r ∈ callOutcomes d cs, Defined r := by
+  induction cs with
+  | nil => intro S d _ _ r hr; cases hr
+  | cons c t ih =>
+    intro S d hI hapi r hr
+    simp only [List.all_cons, Bool.and_eq_true] at hapi
+    have hf := forestOk_of_plInv hI.pl
+    simp only [callOutcomes, List.mem_cons] at hr
+    cases c with
+    | mutate op =>
+      rcases hr with e | e
+      · rw [e]
+        simp only [callG]
+        exact bind_unit_defined _ (stepG_defined d hf op)
+      · have hst : (callG d (.mutate op)).1 = (step d op).1 := by simp only [callG, stepG_eq d hf op]
+        rw [hst] at e
+        exact ih (inv_step hI op hapi.1) hapi.2 r e
+    | q q =>
+      rcases hr with e | e
+      · rw [e]; exact queryG_defined d hI.ch.rk hI.ch.re hf q
+      · exact ih hI hapi.2 r e
 
 end EngineModel.Api.GuardedV2
